@@ -437,6 +437,76 @@ def show(t):
     return str(t)
 
 
+def d4(ctx, prog):
+    """any window reproduces the schedule: key_expansion is partially evaluated for every key size and window position, forwards
+    and backwards (sa.aeskeys); the columns returned, as xor-terms over the opaque window, must equal the FIPS-197 schedule
+    columns computed from the same window."""
+    from .. import aeskeys, confinterp as cf
+    ke = prog.need_func(A, 'key_expansion')
+    chk = prog.func('scared._utils', '_is_bytes_of_len') or prog.func(A, '_is_bytes_of_len')
+    maxc = {4: 44, 6: 52, 8: 60}
+    n_cfg = 0
+    bad = []
+    und = None
+    thorough = ctx.tier == 'thorough'
+    for nk in (4, 6, 8):
+        mx = maxc[nk]
+        for col_in in range(0, mx):
+            outs = set()
+            if col_in + nk <= mx:
+                # forwards: the window is columns col_in .. col_in+nk-1
+                cands = range(col_in + 1, mx + 1) if thorough else {col_in + 1, min(col_in + nk, mx), min(col_in + nk + 1, mx), min(col_in + 2 * nk + 3, mx), mx}
+                outs |= {('f', c) for c in cands if c > col_in}
+                cands = range(0, col_in + 1) if thorough else {0, max(col_in - 1, 0), max(col_in - nk - 1, 0), col_in // 2, col_in}
+                outs |= {('b', c) for c in cands if c <= col_in}
+            for direction, col_out in sorted(outs):
+                it = aeskeys.Cols(prog, nk)
+                if chk is not None:
+                    it.opaque_funcs = {chk.key}
+                key = cf.Sym('key_cols', attrs={'shape': (cf.Sym('n'), 4 * nk), 'ndim': 2})
+                n_cfg += 1
+                try:
+                    r = it.call(ke, kwargs={'key_cols': key, 'col_in': col_in, 'col_out': col_out})
+                except cf.Unknown as e:
+                    und = f'Nk={nk}, col_in={col_in}, col_out={col_out}: {e}'
+                    break
+                except cf.Raised as e:
+                    bad.append(f'Nk={nk}, col_in={col_in}, col_out={col_out} ({"forwards" if direction == "f" else "backwards"}): refused / fails ({e.kind})')
+                    continue
+                if not (isinstance(r, tuple) and r and r[0] == 'cols'):
+                    und = f'Nk={nk}, col_in={col_in}, col_out={col_out}: the value returned is not a slice of the schedule buffer'
+                    break
+                got = r[1]
+                if direction == 'f':
+                    ref = aeskeys.reference(nk, col_in, 0, max(col_out - col_in - nk, 0))
+                    want = [ref[c] for c in range(col_in, col_out)]
+                    first = col_in
+                else:
+                    ref = aeskeys.reference(nk, col_in, col_in - col_out, 0)
+                    want = [ref[c] for c in range(col_out, col_in + nk)]
+                    first = col_out
+                if len(got) != len(want):
+                    bad.append(f'Nk={nk}, col_in={col_in}, col_out={col_out}: {len(got)} columns returned, the schedule has {len(want)} between these positions')
+                    continue
+                diff = [i for i, (g, w_) in enumerate(zip(got, want)) if g != w_]
+                if diff:
+                    bad.append(f'Nk={nk}, window at column {col_in}, expanded {"forwards to" if direction == "f" else "backwards to"} {col_out}: schedule column {first + diff[0]} is not the FIPS-197 '
+                               f'column computed from the same window ({len(diff)} of {len(want)} columns differ)')
+            if und:
+                break
+        if und:
+            break
+    key_ = f'{ke.key}::any window'
+    if und:
+        ctx.undecided('C10-D4', key_, f'key expansion not evaluable: {und}', ke.where())
+    elif bad:
+        ctx.fail('C10-D4', key_, f'{bad[0]} ({len(bad)} of {n_cfg} window configurations wrong)', ke.where(), wrong=len(bad))
+    else:
+        ctx.ok('C10-D4', key_, f'{n_cfg} window configurations (3 key sizes x every window position x forwards/backwards targets): every column returned equals the FIPS-197 schedule column '
+               f'as a term over the window', ke.where(), configurations=n_cfg)
+    return n_cfg
+
+
 def run(ctx, prog):
     ctx.rule('C10-D1', 'DES schedule: bit provenance of all 16 x 48 round-key bits = PC-2 o rot o PC-1; literal tables; interruption and width')
     ctx.rule('C10-D2', 'DES inversion constants and index maps')
@@ -444,12 +514,22 @@ def run(ctx, prog):
     ctx.assume('get_master_key\'s trial-encryption search succeeding, and the col_in/col_out window bookkeeping (slicing arithmetic), are run-time and not decided')
     d1(ctx, prog)
     d2(ctx, prog)
-    n = expansion(ctx, prog, '_expand_forward', True) + expansion(ctx, prog, '_expand_backward', False)
-    # key_expansion dispatch
+    # D4 decides the expansion for the whole window domain; the per-branch rule table of D3 (a reading of the loop's shape) is kept
+    # as a diagnosable cross-check: when D4 reached a verdict, shapes D3 cannot read are notes, not analysis errors
+    ctx.rule('C10-D4', 'any window reproduces the schedule: key_expansion partially evaluated for every key size x window position x direction; returned columns equal the FIPS-197 schedule as xor-terms over the opaque window')
+    n_cfg = d4(ctx, prog)
+    d4_decided = any(o.rule == 'C10-D4' and o.status in ('holds', 'violated') for o in ctx.obs)
+    sub = type(ctx)(ctx.prop, ctx.tier, ctx.seed)
+    n = expansion(sub, prog, '_expand_forward', True) + expansion(sub, prog, '_expand_backward', False)
     f = prog.need_func(A, 'key_expansion')
     txt = norm(f.node).replace(' ', '')
-    ctx.pattern('ifcol_in<col_out:' in txt and 'return_expand_forward(' in txt and 'return_expand_backward(' in txt, 'C10-D3', f'{f.key}::dispatch',
+    sub.pattern('ifcol_in<col_out:' in txt and 'return_expand_forward(' in txt and 'return_expand_backward(' in txt, 'C10-D3', f'{f.key}::dispatch',
                 'forward/backward dispatch on col_in < col_out changed shape', 'forward when col_in < col_out, else backward', f.where())
+    for o in sub.obs:
+        if o.status == 'undecided' and d4_decided:
+            ctx.note(f'C10-D3 could not read {o.construct}: {o.detail} (decided by C10-D4 instead)')
+        else:
+            ctx._add(o)
     ks = prog.need_func(A, 'key_schedule')
     from .. import confinterp as cf
     ke = prog.need_func(A, 'key_expansion')
@@ -483,4 +563,6 @@ def run(ctx, prog):
         ctx.undecided('C10-D3', f'{ks.key}::reshape', f'key_schedule not evaluable: {und}', ks.where())
     else:
         ctx.check(not bad, 'C10-D3', f'{ks.key}::reshape', bad[0] if bad else '', 'key_schedule = full forward expansion from column 0, reshaped to ([keys,] rounds, 16) for the three key sizes', ks.where())
-    ctx.floor('AES expansion rule obligations', n, 8)
+    ctx.floor('AES window configurations evaluated', n_cfg, 500)
+    if not d4_decided:
+        ctx.floor('AES expansion rule obligations', n, 8)
